@@ -117,3 +117,187 @@ func VerifLex(src string) ([]string, error) {
 		toks = append(toks, t.Tag.String()+"@"+strconv.Itoa(t.Pos))
 	}
 }
+
+// VerifAST parses a program and renders the syntax tree as nested JSON arrays
+// (see verifExpr / verifStmt for the node shapes). The harness evaluates that
+// tree with its reference interpreter, so that both sides run the same parse.
+func VerifAST(src string) (string, error) {
+	lex := NewLexer(src)
+	parser := NewParser(&lex)
+	prog, err := parser.Parse()
+	if err != nil {
+		return "", err
+	}
+	var sb strings.Builder
+	sb.WriteString(`{"funcs":[`)
+	for i, f := range prog.Functions {
+		if i > 0 {
+			sb.WriteString(",")
+		}
+		sb.WriteString("[" + strconv.Quote(lex.GetString(&f.ident)) + ",[")
+		for j, a := range f.Args {
+			if j > 0 {
+				sb.WriteString(",")
+			}
+			sb.WriteString(strconv.Quote(a))
+		}
+		sb.WriteString("],")
+		verifStmt(&lex, f.Body, &sb)
+		sb.WriteString("]")
+	}
+	sb.WriteString(`],"rules":[`)
+	for i, r := range prog.Rules {
+		if i > 0 {
+			sb.WriteString(",")
+		}
+		sb.WriteString("[" + strconv.Quote(r.Kind.String()) + ",")
+		verifExpr(&lex, r.Pattern, &sb)
+		sb.WriteString(",")
+		verifStmt(&lex, r.Body, &sb)
+		sb.WriteString("]")
+	}
+	sb.WriteString("]}")
+	return sb.String(), nil
+}
+
+func verifList(lex *Lexer, head string, exprs []Expr, sb *strings.Builder) {
+	sb.WriteString(`["` + head + `"`)
+	for _, e := range exprs {
+		sb.WriteString(",")
+		verifExpr(lex, e, sb)
+	}
+	sb.WriteString("]")
+}
+
+func verifExpr(lex *Lexer, expr Expr, sb *strings.Builder) {
+	switch e := expr.(type) {
+	case nil:
+		sb.WriteString("null")
+	case *ExprLiteral:
+		sb.WriteString(`["lit",` + strconv.Quote(e.token.Tag.String()) + "," + strconv.Quote(lex.GetString(&e.token)) + "]")
+	case *ExprIdentifier:
+		name := lex.GetString(&e.token)
+		switch e.token.Tag {
+		case Dollar:
+			name = "$"
+		case Null:
+			name = "null" // the right side of is
+		case Function:
+			name = "function"
+		}
+		sb.WriteString(`["id",` + strconv.Quote(name) + "]")
+	case *ExprArray:
+		verifList(lex, "arr", e.Items, sb)
+	case *ExprObject:
+		sb.WriteString(`["obj"`)
+		for _, kv := range e.Items {
+			sb.WriteString(",[" + strconv.Quote(kv.Key) + ",")
+			verifExpr(lex, kv.Value, sb)
+			sb.WriteString("]")
+		}
+		sb.WriteString("]")
+	case *ExprUnary:
+		sb.WriteString(`["un",` + strconv.Quote(e.OpToken.Tag.String()) + "," + strconv.FormatBool(e.Postfix) + ",")
+		verifExpr(lex, e.Expr, sb)
+		sb.WriteString("]")
+	case *ExprBinary:
+		sb.WriteString(`["bin",` + strconv.Quote(e.OpToken.Tag.String()) + ",")
+		verifExpr(lex, e.Left, sb)
+		sb.WriteString(",")
+		verifExpr(lex, e.Right, sb)
+		sb.WriteString("]")
+	case *ExprCall:
+		sb.WriteString(`["call",`)
+		verifExpr(lex, e.Func, sb)
+		for _, a := range e.Args {
+			sb.WriteString(",")
+			verifExpr(lex, a, sb)
+		}
+		sb.WriteString("]")
+	case *ExprMatch:
+		sb.WriteString(`["match",`)
+		verifExpr(lex, e.Value, sb)
+		for _, c := range e.Cases {
+			sb.WriteString(",[")
+			verifList(lex, "pats", c.Exprs, sb)
+			sb.WriteString(",")
+			verifStmt(lex, c.Body, sb)
+			sb.WriteString("]")
+		}
+		sb.WriteString("]")
+	default:
+		sb.WriteString(`["unknown-expr"]`)
+	}
+}
+
+func verifStmt(lex *Lexer, stmt Statement, sb *strings.Builder) {
+	switch s := stmt.(type) {
+	case nil:
+		sb.WriteString("null")
+	case *StatementBlock:
+		sb.WriteString(`["block"`)
+		for _, b := range s.Body {
+			sb.WriteString(",")
+			verifStmt(lex, b, sb)
+		}
+		sb.WriteString("]")
+	case *StatementPrint:
+		verifList(lex, "print", s.Args, sb)
+	case *StatementExpr:
+		sb.WriteString(`["expr",`)
+		verifExpr(lex, s.Expr, sb)
+		sb.WriteString("]")
+	case *StatementReturn:
+		sb.WriteString(`["return",`)
+		verifExpr(lex, s.Expr, sb)
+		sb.WriteString("]")
+	case *StatementBreak:
+		sb.WriteString(`["break"]`)
+	case *StatementContinue:
+		sb.WriteString(`["continue"]`)
+	case *StatementNext:
+		sb.WriteString(`["next"]`)
+	case *StatementExit:
+		sb.WriteString(`["exit"]`)
+	case *StatementIf:
+		sb.WriteString(`["if",`)
+		verifExpr(lex, s.Expr, sb)
+		sb.WriteString(",")
+		verifStmt(lex, s.Body, sb)
+		sb.WriteString(",")
+		verifStmt(lex, s.ElseBody, sb)
+		sb.WriteString("]")
+	case *StatementWhile:
+		sb.WriteString(`["while",`)
+		verifExpr(lex, s.Expr, sb)
+		sb.WriteString(",")
+		verifStmt(lex, s.Body, sb)
+		sb.WriteString("]")
+	case *StatementFor:
+		sb.WriteString(`["for",`)
+		verifExpr(lex, s.PreExpr, sb)
+		sb.WriteString(",")
+		verifExpr(lex, s.Expr, sb)
+		sb.WriteString(",")
+		verifExpr(lex, s.PostExpr, sb)
+		sb.WriteString(",")
+		verifStmt(lex, s.Body, sb)
+		sb.WriteString("]")
+	case *StatementForIn:
+		sb.WriteString(`["forin",`)
+		verifExpr(lex, s.Ident, sb)
+		sb.WriteString(",")
+		if s.IndexIdent != nil {
+			verifExpr(lex, s.IndexIdent, sb)
+		} else {
+			sb.WriteString("null")
+		}
+		sb.WriteString(",")
+		verifExpr(lex, s.Iterable, sb)
+		sb.WriteString(",")
+		verifStmt(lex, s.Body, sb)
+		sb.WriteString("]")
+	default:
+		sb.WriteString(`["unknown-stmt"]`)
+	}
+}
